@@ -1,5 +1,7 @@
 import HranoModel.Lemmas.Walk
 import HranoModel.Lemmas.Next
+import HranoModel.Lemmas.DateOrder
+import HranoModel.Lemmas.DateRT
 import HranoModel.Model.Options
 /-!
 C06 — date range selection is exact, inclusive and independent of layout and time zone.
@@ -50,6 +52,30 @@ theorem day_count_advances (c : Civil) (hm1 : 1 ≤ c.m) (hm2 : c.m ≤ 12) (hd1
     Date.toDays (Date.next c) = Date.toDays c + 1 ∧ Date.instant (Date.next c) = Date.instant c + Date.nsPerDay
     ∧ (1 ≤ (Date.next c).m ∧ (Date.next c).m ≤ 12 ∧ 1 ≤ (Date.next c).d ∧ (Date.next c).d ≤ Date.daysIn (Date.next c).m (Date.next c).y) :=
   ⟨Date.toDays_next c hm1 hm2 hd1 hd2, Date.instant_next c hm1 hm2 hd1 hd2, Date.next_valid c hm1 hm2 hd1 hd2⟩
+
+/-- every heading (and every bound) the date reader accepts, in any layout, is a date of the calendar: month 1..12 and
+    a day that exists in that month of that year -/
+theorem parsed_date_is_calendar_day (l : Layout) (s : Bytes) (c : Civil) (h : Date.parse l s = some c) : Date.Valid c :=
+  Date.parse_valid l s c h
+
+/-- **comparing instants is comparing calendar dates**, for every pair of dates the reader accepts (not only
+    neighbouring days): earlier instant ⇔ earlier in (year, month, day) order, same instant ⇔ same date -/
+theorem instants_order_is_calendar_order (l l' : Layout) (s s' : Bytes) (a b : Civil)
+    (ha : Date.parse l s = some a) (hb : Date.parse l' s' = some b) :
+    (Date.instant a < Date.instant b ↔ Date.before a b) ∧ (Date.instant a = Date.instant b ↔ a = b) :=
+  ⟨Date.instant_lt_iff a b (Date.parse_valid l s a ha) (Date.parse_valid l' s' b hb),
+   Date.instant_eq_iff a b (Date.parse_valid l s a ha) (Date.parse_valid l' s' b hb)⟩
+
+/-- … so a period given by two accepted dates selects a heading exactly when the heading's date is not before the
+    first and not after the last date *of the calendar*, both ends included -/
+theorem period_is_calendar_interval (l : Layout) (sb se sd : Bytes) (b e d : Civil)
+    (hb : Date.parse l sb = some b) (he : Date.parse l se = some e) (hd : Date.parse l sd = some d) :
+    inInterval (some (Date.instant b)) (some (Date.instant e)) (Date.instant d) = true ↔ ¬ Date.before d b ∧ ¬ Date.before e d := by
+  have vb := Date.parse_valid l sb b hb
+  have ve := Date.parse_valid l se e he
+  have vd := Date.parse_valid l sd d hd
+  rw [← Date.instant_lt_iff d b vd vb, ← Date.instant_lt_iff e d ve vd]
+  simp [inInterval]
 
 /-- `yesterday` against the day after `c` is `c`: the keyword is the previous *calendar* day -/
 theorem yesterday_is_previous_day (c : Civil) (l : Layout) (hm1 : 1 ≤ c.m) (hm2 : c.m ≤ 12) (hd1 : 1 ≤ c.d) (hd2 : c.d ≤ Date.daysIn c.m c.y) :
